@@ -455,7 +455,12 @@ func (e *env) creds(class string) []cred {
 	case clExtra:
 		return []cred{{class, true, "Bearer " + fx.user + " x", "Bearer <user> x"}, {class, true, "Bearer " + rig.AdminToken + " " + rig.AdminToken, "Bearer <admin> <admin>"}}
 	case clUnknown:
-		return []cred{{class, true, "Bearer " + fx.unknownTok, "Bearer <unknown>"}}
+		// a random value, and values that are nearly a valid credential: the admin / a user token with a character added
+		// in front or behind, or with the last character cut
+		return []cred{{class, true, "Bearer " + fx.unknownTok, "Bearer <unknown>"},
+			{class, true, "Bearer " + rig.AdminToken + "x", "Bearer <admin>x"}, {class, true, "Bearer x" + rig.AdminToken, "Bearer x<admin>"},
+			{class, true, "Bearer " + rig.AdminToken[:len(rig.AdminToken)-1], "Bearer <admin minus last character>"},
+			{class, true, "Bearer " + fx.user + "x", "Bearer <user>x"}, {class, true, "Bearer " + fx.user[:len(fx.user)-1], "Bearer <user minus last character>"}}
 	case clRevoked:
 		return []cred{{class, true, "Bearer " + fx.revoked, "Bearer <revoked>"}}
 	case clUser:
